@@ -21,6 +21,7 @@ import (
 	"verif/harness/internal/c14"
 	"verif/harness/internal/c19"
 	"verif/harness/internal/c20"
+	"verif/harness/internal/cancel"
 	"verif/harness/internal/corr"
 	"verif/harness/internal/fw"
 	"verif/harness/internal/stream"
@@ -94,6 +95,12 @@ func main() {
 	defer d.Close()
 
 	switch prop {
+	case "C06":
+		res.Rule = "rounds of 2..5 concurrent calls and subscriptions on one connection plus a call on a second connection; a random subset is cancelled at one of four instants (before send, after send, racing the response, after the subscription is established); a probe call orders the cancel frames; cancelled handlers must see the cancellation, all others must stay live; the server connection's hook trace is replayed through Jrpc.Cancel; plus HTTP abort; distinct = (instant, subset)"
+		err = cancel.Cancellation(d, res, *seed, thorough)
+	case "C15":
+		res.Rule = "end causes {graceful close, FIN, RST, server-side context cancel} x handler reaction time {0, 15 ms} with five handlers in progress (unary, 300 kB response, stream, notification, reverse-calling), plus the reader-hand-off schedule; every captured context must be cancelled and no goroutine labelled for the dead connection may remain; distinct = (cause, reaction, gate)"
+		err = cancel.ConnectionEnd(d, res, *seed, thorough)
 	case "C07":
 		res.Rule = "rounds of 1..4 concurrent subscriptions with lengths {0,1,31,32,33,257,1000}, fast/slow consumers, every third round one consumer that does not read (from the start or after 5 values) while the others and 20 unary calls must complete, seed-driven delays at every hook; per subscription the hook trace is replayed through the model and compared with what the consumer received; wire order checked on proxy frames; distinct = round; every round non-trivial"
 		err = stream.RunHealthy(d, res, *seed, thorough)
